@@ -294,6 +294,295 @@ func assertChain(info *types.Info, d *ast.FuncDecl, call *ast.CallExpr) (typeSwi
 	return ti, false
 }
 
+// enumCoverage: an abort that is reached only when a value of an enumeration type equals none of a list of constants,
+// written without a switch:
+//
+//	if k == A { ... } else if k == B { ... } else { panic(...) }          (final else of an equality chain)
+//	for _, row := range table { if row.key == k { return ... } }; panic(...)   (miss in a literal lookup table)
+//	if v, ok := table[k]; ok { return ... }; panic(...)                     (miss in a literal map)
+//
+// Returns the enumeration type and the constant values that are covered.
+func enumCoverage(c *core.Ctx, info *types.Info, d *ast.FuncDecl, call *ast.CallExpr) (*types.Named, map[string]bool, bool) {
+	parent := map[ast.Node]ast.Node{}
+	var stack []ast.Node
+	ast.Inspect(d.Body, func(n ast.Node) bool {
+		if n == nil {
+			stack = stack[:len(stack)-1]
+			return true
+		}
+		if len(stack) > 0 {
+			parent[n] = stack[len(stack)-1]
+		}
+		stack = append(stack, n)
+		return true
+	})
+	enumOf := func(e ast.Expr) *types.Named {
+		nt := core.NamedOf(info.TypeOf(e))
+		if nt == nil || nt.Obj().Pkg() == nil {
+			return nil
+		}
+		if _, isBasic := nt.Underlying().(*types.Basic); !isBasic {
+			return nil
+		}
+		return nt
+	}
+	subjKey := func(e ast.Expr) string {
+		e = ast.Unparen(e)
+		if id, ok := e.(*ast.Ident); ok {
+			if r := singleDefRHS(info, d.Body, id); r != ast.Expr(id) {
+				e = ast.Unparen(r)
+			}
+		}
+		return types.ExprString(e)
+	}
+	// equalities `S == K`, possibly joined by ||
+	var eqs func(e ast.Expr) (string, []string, bool)
+	eqs = func(e ast.Expr) (string, []string, bool) {
+		be, ok := ast.Unparen(e).(*ast.BinaryExpr)
+		if !ok {
+			return "", nil, false
+		}
+		if be.Op == token.LOR {
+			s1, v1, ok1 := eqs(be.X)
+			s2, v2, ok2 := eqs(be.Y)
+			if ok1 && ok2 && s1 == s2 {
+				return s1, append(v1, v2...), true
+			}
+			return "", nil, false
+		}
+		if be.Op != token.EQL {
+			return "", nil, false
+		}
+		l, r := be.X, be.Y
+		if tv, isC := info.Types[l]; isC && tv.Value != nil {
+			l, r = r, l
+		}
+		tv, isC := info.Types[r]
+		if !isC || tv.Value == nil || enumOf(l) == nil {
+			return "", nil, false
+		}
+		return subjKey(l), []string{tv.Value.ExactString()}, true
+	}
+	// the statement that holds the abort, and the list it is in
+	var st ast.Node = call
+	for parent[st] != nil {
+		if _, isStmt := st.(ast.Stmt); isStmt {
+			break
+		}
+		st = parent[st]
+	}
+	covered := map[string]bool{}
+	// (a) final else of an equality chain
+	if blk, ok := parent[st].(*ast.BlockStmt); ok {
+		if ifs, ok := parent[blk].(*ast.IfStmt); ok && ifs.Else == ast.Stmt(blk) {
+			root := ifs
+			for {
+				up, ok := parent[root].(*ast.IfStmt)
+				if !ok || up.Else != ast.Stmt(root) {
+					break
+				}
+				root = up
+			}
+			subject := ""
+			var nt *types.Named
+			good := true
+			for cur := root; cur != nil; {
+				s, vals, ok := eqs(cur.Cond)
+				if !ok || (subject != "" && s != subject) {
+					good = false
+					break
+				}
+				subject = s
+				for _, v := range vals {
+					covered[v] = true
+				}
+				if be, isB := ast.Unparen(cur.Cond).(*ast.BinaryExpr); isB && nt == nil {
+					x := be.X
+					for {
+						if inner, isInner := ast.Unparen(x).(*ast.BinaryExpr); isInner && inner.Op == token.LOR {
+							x = inner.X
+							continue
+						}
+						break
+					}
+					if ib, isIB := ast.Unparen(x).(*ast.BinaryExpr); isIB {
+						nt = enumOf(ib.X)
+						if nt == nil {
+							nt = enumOf(ib.Y)
+						}
+					} else {
+						nt = enumOf(be.X)
+						if nt == nil {
+							nt = enumOf(be.Y)
+						}
+					}
+				}
+				next, _ := cur.Else.(*ast.IfStmt)
+				cur = next
+			}
+			if good && nt != nil {
+				return nt, covered, true
+			}
+		}
+	}
+	// (b)/(c) a miss in a literal table: the abort follows, in its statement list, a loop / lookup that returns on a hit
+	var list []ast.Stmt
+	switch pb := parent[st].(type) {
+	case *ast.BlockStmt:
+		list = pb.List
+	case *ast.CaseClause:
+		list = pb.Body
+	}
+	tableLit := func(e ast.Expr) *ast.CompositeLit {
+		id, ok := ast.Unparen(e).(*ast.Ident)
+		if !ok {
+			return nil
+		}
+		obj := info.ObjectOf(id)
+		if obj == nil || obj.Pkg() == nil {
+			return nil
+		}
+		var lit *ast.CompositeLit
+		n := 0
+		if p := c.PkgOf(obj.Pkg()); p != nil {
+			for _, f := range p.Syntax {
+				for _, dd := range f.Decls {
+					gd, ok := dd.(*ast.GenDecl)
+					if !ok || gd.Tok != token.VAR {
+						continue
+					}
+					for _, sp := range gd.Specs {
+						vs := sp.(*ast.ValueSpec)
+						for i, nm := range vs.Names {
+							if p.TypesInfo.Defs[nm] == obj && i < len(vs.Values) {
+								n++
+								lit, _ = ast.Unparen(vs.Values[i]).(*ast.CompositeLit)
+							}
+						}
+					}
+				}
+			}
+		}
+		if n != 1 {
+			return nil
+		}
+		return lit
+	}
+	for i, s := range list {
+		if ast.Node(s) != st {
+			continue
+		}
+		for j := i - 1; j >= 0; j-- {
+			switch x := list[j].(type) {
+			case *ast.RangeStmt:
+				lit := tableLit(x.X)
+				rowObj := identObj(info, x.Value)
+				if lit == nil || rowObj == nil || len(x.Body.List) != 1 {
+					continue
+				}
+				ifs, ok := x.Body.List[0].(*ast.IfStmt)
+				if !ok || ifs.Else != nil || len(ifs.Body.List) == 0 || !stmtLeaves(ifs.Body.List[len(ifs.Body.List)-1]) {
+					continue
+				}
+				be, ok := ast.Unparen(ifs.Cond).(*ast.BinaryExpr)
+				if !ok || be.Op != token.EQL {
+					continue
+				}
+				fieldSide, other := be.X, be.Y
+				se, ok := ast.Unparen(fieldSide).(*ast.SelectorExpr)
+				if !ok || identObj(info, se.X) != rowObj {
+					fieldSide, other = be.Y, be.X
+					se, ok = ast.Unparen(fieldSide).(*ast.SelectorExpr)
+					if !ok || identObj(info, se.X) != rowObj {
+						continue
+					}
+				}
+				nt := enumOf(other)
+				if nt == nil {
+					continue
+				}
+				// the rows of the literal: the value of that field
+				st0, _ := info.TypeOf(x.Value).Underlying().(*types.Struct)
+				fi := -1
+				if st0 != nil {
+					for k := 0; k < st0.NumFields(); k++ {
+						if st0.Field(k).Name() == se.Sel.Name {
+							fi = k
+						}
+					}
+				}
+				litInfo := info
+				if p := c.PkgOf(info.ObjectOf(ast.Unparen(x.X).(*ast.Ident)).Pkg()); p != nil {
+					litInfo = p.TypesInfo
+				}
+				for _, el := range lit.Elts {
+					row, ok := ast.Unparen(el).(*ast.CompositeLit)
+					if !ok {
+						continue
+					}
+					for k, fe := range row.Elts {
+						var val ast.Expr
+						if kv, isKV := fe.(*ast.KeyValueExpr); isKV {
+							if kid, isId := kv.Key.(*ast.Ident); isId && kid.Name == se.Sel.Name {
+								val = kv.Value
+							}
+						} else if k == fi {
+							val = fe
+						}
+						if val != nil {
+							if tv, ok := litInfo.Types[val]; ok && tv.Value != nil {
+								covered[tv.Value.ExactString()] = true
+							}
+						}
+					}
+				}
+				return nt, covered, true
+			case *ast.IfStmt:
+				// if v, ok := table[k]; ok { return ... }
+				as, ok := x.Init.(*ast.AssignStmt)
+				if !ok || len(as.Lhs) != 2 || len(as.Rhs) != 1 || x.Else != nil || len(x.Body.List) == 0 || !stmtLeaves(x.Body.List[len(x.Body.List)-1]) {
+					continue
+				}
+				ix, ok := ast.Unparen(as.Rhs[0]).(*ast.IndexExpr)
+				if !ok || identObj(info, x.Cond) == nil || identObj(info, x.Cond) != identObj(info, as.Lhs[1]) {
+					continue
+				}
+				lit := tableLit(ix.X)
+				nt := enumOf(ix.Index)
+				if lit == nil || nt == nil {
+					continue
+				}
+				litInfo := info
+				if p := c.PkgOf(info.ObjectOf(ast.Unparen(ix.X).(*ast.Ident)).Pkg()); p != nil {
+					litInfo = p.TypesInfo
+				}
+				for _, el := range lit.Elts {
+					if kv, isKV := el.(*ast.KeyValueExpr); isKV {
+						if tv, ok := litInfo.Types[kv.Key]; ok && tv.Value != nil {
+							covered[tv.Value.ExactString()] = true
+						}
+					}
+				}
+				return nt, covered, true
+			}
+		}
+	}
+	return nil, nil, false
+}
+
+// missingConstants: the declared constants of the enumeration type whose values are not covered.
+func missingConstants(nt *types.Named, covered map[string]bool) []string {
+	var m []string
+	sc := nt.Obj().Pkg().Scope()
+	for _, n := range sc.Names() {
+		if k, ok := sc.Lookup(n).(*types.Const); ok && types.Identical(k.Type(), nt) && !covered[k.Val().ExactString()] {
+			m = append(m, k.Name())
+		}
+	}
+	sort.Strings(m)
+	return m
+}
+
 func exhaustive(c *core.Ctx, info *types.Info, sw ast.Stmt, fn string) (bool, string) {
 	facts := sealedFlowFacts[fn]
 	switch s := sw.(type) {
@@ -525,6 +814,23 @@ func ruleAbortsImpl(fileScope func(string) bool, ruleID string, min int, onlyDef
 						if len(cands) == 1 && ownerAborts == 0 {
 							auditKey = cands[0]
 						}
+					}
+				}
+				if sw == nil && chain == nil {
+					if nt, covered, isEnum := enumCoverage(c, info, d, a.call); isEnum {
+						label = "default of switch on " + typeLabel(nt)
+						key = fmt.Sprintf("%s/%s", c.FuncName(d), label)
+						if r, listed := auditedAborts[key]; listed {
+							found[key] = true
+							c.OK(ruleID, key, a.call.Pos(), "audited: "+r)
+							continue
+						}
+						if missing := missingConstants(nt, covered); len(missing) == 0 {
+							c.OK(ruleID, key, a.call.Pos(), "every declared constant of "+nt.Obj().Name()+" is compared/listed in front of the abort (read as the default of a switch)")
+						} else {
+							c.Bad(ruleID, key, a.call.Pos(), "abort reachable: constants of "+nt.Obj().Name()+" without a case: "+strings.Join(missing, ", "))
+						}
+						continue
 					}
 				}
 				if sw != nil || chain != nil {
